@@ -317,12 +317,15 @@ Definition same_crd (a b : option coords) : bool :=
   | Some x, Some y => co_id x =? co_id y
   | _, _ => false
   end.
+(* new coordinates must have the dataset's dimension; and when a pixel component has been removed through the public API
+   (known finding) the setter may empty the dataset half-way and then recurse for ever: not modelled *)
+Definition coords_ok (v : option coords) (s : st) : bool :=
+  match v with None => true | Some co => (co_ndim co =? ndim s) && subsetz (pixel s) (keys (comps s)) end.
 Definition set_coords (v : option coords) (s : st) : st * result :=
   if same_crd (crd s) v then (s, ROk)
   else match comps s with
        | [] => (set_crd s v, ROk)
-       | _ => let ok := match v with None => true | Some co => co_ndim co =? ndim s end in
-              if ok then (update_world (length (shape s)) (set_crd s v), ROk) else (s, RUnmodelled)
+       | _ => if coords_ok v s then (update_world (length (shape s)) (set_crd s v), ROk) else (s, RUnmodelled)
        end.
 
 (* ---------- update_components ---------- *)
@@ -331,7 +334,10 @@ Fixpoint update_comps_loop (l : list (cid * list Z)) (s : st) : st * result :=
   | [] => (s, ROk)
   | (c, sh) :: t =>
     match assoc c (comps s) with
-    | None => (s, RErr IncompatibleAttribute)
+    | None =>
+      (* get_component also resolves externally derivable ids (to a helper DerivedComponent, which is not a stored
+         component: outside the domain, like any other non-stored component) *)
+      if memz c (ext s) then (s, RUnmodelled) else (s, RErr IncompatibleAttribute)
     | Some k =>
       if negb (eqlz sh (shape s)) then (s, RErr ValueError)
       else if negb (is_main k) then (s, RUnmodelled)
